@@ -205,7 +205,7 @@ func mutationSweep(r *core.Run) {
 		if err != nil {
 			return
 		}
-		w := &worker{r: r, oc: map[string]int64{}}
+		w := &worker{r: r, oc: map[string]int64{}, shapes: true}
 		seen := map[string]bool{}
 		run := func(m []byte, origin string) {
 			if seen[string(m)] {
